@@ -42,7 +42,14 @@ func (c *c13) invariants(what string) {
 	if err := mp.Validate(); err != nil {
 		c.fail("%s: stored minter parameters do not validate: %v", what, err)
 	}
-	if !mp.ContainsMinter(app.CfeminterKeeper.GetMinterState(ctx).SequenceId) {
+	curSeq := app.CfeminterKeeper.GetMinterState(ctx).SequenceId
+	contains := false
+	for _, m := range mp.Minters {
+		if m != nil && m.SequenceId == curSeq {
+			contains = true
+		}
+	}
+	if !contains {
 		c.fail("%s: the minter's current period %d is not in the stored configuration", what, app.CfeminterKeeper.GetMinterState(ctx).SequenceId)
 	}
 	dp := app.CfedistributorKeeper.GetParams(ctx)
